@@ -9,7 +9,10 @@ pub fn check_layout(module: &Module) -> Result<(), LayoutError> {
     let mut types_seen = HashSet::new();
 
     for global in &module.global_registry {
+        // An array of buffers has the same element layout as a single buffer
         let ty = module.type_registry.remove_modifier(global.type_id);
+        let ty = module.type_registry.get_non_array_id(ty);
+        let ty = module.type_registry.remove_modifier(ty);
         let tyl = module.type_registry.get_type_layer(ty);
         let o = match tyl {
             TypeLayer::Object(o) => o,
